@@ -24,9 +24,12 @@ def run(chk):
         'exact counts, target\'s held references unchanged. '
         'distinct_nontrivial = distinct (n, source order, target order, route)')
     chk.mc('MC_Ops2', 'MC_Let2.cfg')     # _copy_bdd within one manager (CopyRename) refines RenameC
-    chk.mc('MC_CopyLoad', 'MC_CopyLoad.cfg' if q else 'MC_CopyLoad_deep.cfg', timeout=5000)   # two managers, every receiver order
     if not q:
+        chk.mc('MC_CopyLoad', 'MC_CopyLoad_deep.cfg', timeout=5000)   # ite over slot triples too
         chk.mc('MC_CopyLoad', 'MC_CopyLoad_q5.cfg', timeout=5000)     # build-only operands, one level deeper
+    # two managers, every receiver order: model-checked, then its paths replayed into two real
+    # managers through real pickle / JSON files, tables compared after every action
+    sh_graph = common.stage_copyload_graph(chk, limit=2500 if q else 14000)
     tasks = []
     tid = 11000000
     pairs3 = [(a, b) for a in ORDERS3 for b in ORDERS3]
@@ -40,7 +43,7 @@ def run(chk):
         t.update(shard=chk.shard('x_c11_%d' % tid), tid=tid, seed=chk.seed * 13 + tid)
         tid += 1
     sh, _ = chk.generate(xfer.c11_task, tasks)
-    chk.validate('TraceXfer', 'TraceXfer.cfg', sh)
+    chk.validate('TraceXfer', 'TraceXfer.cfg', sh + sh_graph)
 
     def wrong_copy(tr):
         for ev in tr['events']:
